@@ -1,6 +1,7 @@
 // one file per component; `dispatch` routes a protocol op to it
 pub mod base64;
 pub mod serve;
+pub mod request;
 pub mod pool;
 pub mod range;
 pub mod cors;
@@ -9,6 +10,7 @@ pub fn dispatch(op: &str, f: &[String]) -> String {
     if let Some(r) = base64::dispatch(op, f) { return r; }
     if let Some(r) = cors::dispatch(op, f) { return r; }
     if let Some(r) = range::dispatch(op, f) { return r; }
+    if let Some(r) = request::dispatch(op, f) { return r; }
     "bad-op".to_string()
 }
 
